@@ -198,6 +198,7 @@ fn server_bases(tier: Tier) -> Vec<SCfg> {
                             burst: false,
                             reuse_after_end: false,
                             dup_deadline_ms: 10_000,
+                            via_serde: false,
                         });
                     }
                 }
